@@ -4,6 +4,9 @@ set -e
 cd "$(dirname "$0")"
 mkdir -p .work evidence replay
 for f in specs/*.tla; do
-  (cd specs && tla-sany "$(basename "$f")" >/dev/null 2>&1) || { echo "SANY failed on $f"; exit 1; }
+  out=$(cd specs && tla-sany "$(basename "$f")" 2>&1) || { echo "SANY failed on $f"; exit 1; }
+  if echo "$out" | grep -q -E '\*\*\* Errors|Fatal errors|Semantic errors|Could not parse|Parse Error'; then
+    echo "SANY reports errors in $f"; exit 1
+  fi
 done
 PYTHONPATH=harness/shims /venv/bin/python -c "import portion; portion._selftest(); import crcmod.predefined; print('shims ok')"
